@@ -258,6 +258,11 @@ func (r *Run) FinishPart(cov map[string]any) {
 // coverage: integers are summed ("max*" keys take the maximum), booleans are
 // AND-ed, arrays concatenated (capped), other values taken from the first part.
 func (r *Run) RunShards(testName string, n int) map[string]any {
+	return r.RunShardsBin(os.Args[0], "", testName, n)
+}
+
+// RunShardsBin is RunShards for another test binary of the harness (started in workDir).
+func (r *Run) RunShardsBin(bin, workDir, testName string, n int) map[string]any {
 	dir := os.Getenv("VERIF_SCRATCH")
 	if dir == "" {
 		dir = os.TempDir()
@@ -272,7 +277,8 @@ func (r *Run) RunShards(testName string, n int) map[string]any {
 		wg.Add(1)
 		go func(i int) {
 			defer wg.Done()
-			cmd := execCommand(os.Args[0], "-test.run", "^"+testName+"$", "-test.timeout", "0", "-test.count", "1")
+			cmd := execCommand(bin, "-test.run", "^"+testName+"$", "-test.timeout", "0", "-test.count", "1")
+			cmd.Dir = workDir
 			cmd.Env = append(os.Environ(), fmt.Sprintf("VERIF_SHARD=%d/%d", i, n), "VERIF_PART="+filepath.Join(dir, fmt.Sprintf("part-%s-%d.json", r.Property, i)), "GOMAXPROCS=1")
 			out, err := cmd.CombinedOutput()
 			results[i] = res{out, err}
